@@ -181,7 +181,7 @@ func c16Schedules(r *core.Run) {
 		}(s)
 	}
 	wg.Wait()
-	var execs, scen int64
+	var execs, scen, preemptive int64
 	maxDec, maxPre := 0, 0
 	for s := 0; s < n; s++ {
 		if errs[s] != "" {
@@ -196,6 +196,7 @@ func c16Schedules(r *core.Run) {
 		sm := sums[s]
 		execs += int64(sm.Executions)
 		scen += int64(sm.Scenarios)
+		preemptive += int64(sm.Preemptive)
 		maxDec, maxPre = max(maxDec, sm.MaxDecisions), max(maxPre, sm.MaxPreemptions)
 		if !sm.Complete {
 			m.Incomplete(fmt.Sprintf("shard %d stopped at its deadline after %d scenarios", s, sm.Scenarios))
@@ -217,6 +218,7 @@ func c16Schedules(r *core.Run) {
 	}
 	r.Extra("schedules_executed", execs)
 	r.Extra("schedule_scenarios", scen)
+	r.Extra("schedules_with_at_least_one_preemption", preemptive) // distinct by construction: the DFS never repeats a choice sequence
 	r.Extra("schedule_preemption_bound", bound)
 	r.Extra("schedule_max_decisions_in_one_execution", maxDec)
 	r.Extra("schedule_points_instrumented", len(res.Sites))
